@@ -203,6 +203,9 @@ def check(pid, tier, only_unit=None, quiet=False, only_harness=None):
     units = [u for u in cfg.get('unit', []) if (only_unit is None or u['name'] == only_unit)]
     vunits = [u for u in units if u['backend'] == 'verus' and tier_ok(u.get('tier'), tier)]
     kunits = [u for u in units if u['backend'] == 'kani']
+    if os.environ.get('CV_ONLY_BACKEND') == 'verus' and REPO != '/repo':
+        # development aid (re-running seeded changes against the Verus units only); never in effect on /repo itself
+        kunits = []
     vb = os.path.join(BUILD, 'v', pid)
     if os.path.isdir(vb):
         shutil.rmtree(vb)
